@@ -5,6 +5,7 @@ import time
 from ..core.report import Report
 from ..core import pool
 from ..sched import explore, rerun, configs as C
+from . import c04_persist
 
 LEVEL = 'model_checking'
 ENGINE = 'E-sched'
@@ -19,10 +20,15 @@ RULE = ('graphs: 2-chains (hard, soft), 3-chains (hh, hs, sh), fork and join wit
         '(workers, preemption bound) = (1,2),(2,1) on 2-task graphs and (1,1),(2,0) on 3-task graphs (thorough: (1,3),(2,2) and (1,2),(2,0)); the successor states of a history are '
         'the union over schedules. One transition (a DONE task whose soft dependency is skipped while its hard dependency is re-executed) is additionally explored at 2 workers / 2 preemptions. Oracle at the end of every run: no task is DONE unless each DONE dependency has end <= start(task) and '
         'no hard dependency is FAILED or SKIPPED; a task that entered DONE with its whole dependency cone DONE and not re-executed is not '
-        'executed and keeps its entry bit for bit; no task runs twice in a run; non-trivial = runs starting from a non-empty state')
+        'executed and keeps its entry bit for bit; no task runs twice in a run; non-trivial = runs starting from a non-empty state. '
+        'Persisted path: BFS (state = per-task status and clock ranks on disk) over histories of the real RunCommand.execute (job file -> build_graphs -> '
+        'read_env -> Scheduler on real threads, 1 and 2 workers -> write_env) on a 4-task hard/soft job: first run + 3 (thorough 4) steps from {run with a / b / c '
+        'failing or none, run of a part of the job (tasks added / removed), loss of one environment file}; same clauses judged on the returned environment, '
+        'the journal of executions and the entries readable on disk before the run')
 ASSUMPTIONS = ['same trusted base as C01 (controlled scheduler, bounded preemptions)',
                'clock values matter only through comparisons: states are canonicalised by replacing clocks with their ranks',
-               'small-scope: <= 3 tasks, <= 3-4 runs, <= 2 changes between runs']
+               'small-scope: <= 3 tasks, <= 3-4 runs, <= 2 changes between runs',
+               'persisted path: real threads and the real clock (one OS-chosen schedule per run; the schedule dimension is explored by the controlled runs above)']
 LEVEL_TEXT = ('The state graph of persisted environments under "run again with some entries lost / some tasks failing" is explored breadth '
               'first to depth 3 (4) for every small graph; each edge is computed by exhaustively exploring the interleavings of the real '
               'scheduler (preemption bound 0-1) from that state, and the re-run invariant (nothing DONE is older than a DONE dependency or '
@@ -173,6 +179,9 @@ def run(tier, seed):
             total.extra[f'states_after_run_{version}_coarse{coarse}'] = sum(len(v) for v in frontier.values())
     total.states += len(graphs)
     focus(total, tier, seed)
+    # the persisted path: histories of the real `valjean run` command on one output directory (files only carry the state)
+    for part in _pmap_keep(c04_persist.job_persist, c04_persist.jobs(tier), seed):
+        total.merge(part)
     total.extra['runs_per_history'] = nruns
     total.extra['schedule_plans(workers, preemption bound) per number of tasks'] = {str(k): v for k, v in plans.items()}
     total.sample({'graph': 'chain3hh', 'history': [{'run': 1, 'lost': [], 'failing': []}, {'run': 2, 'lost': [0], 'failing': []}]})
@@ -195,6 +204,8 @@ def _safe(args):
 
 
 def replay(case):
+    if str(case.get('label', '')).startswith('persisted:'):
+        return c04_persist.replay(case)
     cfg = dict(case['config'])
     import ast
     from valjean.cosette.task import TaskStatus
